@@ -38,7 +38,7 @@ from symplyphysics import (
     quantities,
 )
 
-velocity_component_distribution = Symbol("f(v_k)", 1 / units.velocity)
+velocity_component_distribution = Symbol("f(v_k)", 1 / units.velocity, display_latex="f(v_{k})")
 """
 Distribution function of velocity component :math:`v_k`.
 """
